@@ -430,3 +430,6 @@ func (w *World) TraceTail(n int) []string {
 	}
 	return out
 }
+
+// PointCountLocked is PointCount with Mu held.
+func (w *World) PointCountLocked(point string) int { return w.pointCount[point] }
